@@ -187,10 +187,13 @@ def list_properties(u, binary):
             props = item['properties']
     return props
 
-def run_cbmc(u, binary, prop_ids=None, timeout=300, route=None):
-    cmd = cbmc_base(u, route) + ['--json-ui', '--trace']
+def run_cbmc(u, binary, prop_ids=None, timeout=300, route=None, slice_formula=False):
+    base = cbmc_base(u, route)
+    if slice_formula and '--slice-formula' not in base:
+        base = base + ['--slice-formula']    # single obligation: cone of influence (assumptions are kept)
+    cmd = base + ['--json-ui', '--trace']
     if u.get('no_trace', u['module'].get('no_trace', False)):
-        cmd = cbmc_base(u, route) + ['--trace']     # marker only: the plain-text path below drops it
+        cmd = base + ['--trace']     # marker only: the plain-text path below drops it
     for p in (prop_ids or []):
         cmd += ['--property', p]
     cmd += [binary]
@@ -317,7 +320,7 @@ def run_unit(u, keep=False, jobs=4):
                     if re.search(pat, pn):
                         pf = hint + [x for x in portfolio if x not in hint]
                 for route, tmo in pf:
-                    r, mm, d = run_cbmc(u, b['binary'], [pn], tmo, route)
+                    r, mm, d = run_cbmc(u, b['binary'], [pn], tmo, route, slice_formula=True)
                     if r is not None and any(x.get('property') == pn and x.get('status') in ('SUCCESS', 'FAILURE') for x in r):
                         for x in r:
                             if x.get('property') == pn:
@@ -598,8 +601,13 @@ def main():
         for a in u.get('assumptions', []):
             if a not in assumptions:
                 assumptions.append(a)
-    if waived:
-        assumptions.append('A-PTRCMP: comparisons of the form (cur + n) > end form a pointer up to n bytes past the allocation (undefined by the letter of C11 6.5.6p8, no memory access); treated as an integer comparison on a flat address space; %d such checks waived, not counted as obligations' % len(waived))
+    WAIVE_TEXT = {
+        'A-PTRCMP': 'comparisons of the form (cur + n) > end form a pointer up to n bytes past the allocation (undefined by the letter of C11 6.5.6p8, no memory access); treated as an integer comparison on a flat address space',
+        'A-TSRANGE': 'sample ids and timestamps stored in a time map are below 2^61 in magnitude, so differences of two of them do not overflow int64 (cannot be stated for every entry without a quantifier; stated for the witness pair only)',
+    }
+    for code in sorted(set(w.rsplit('[', 1)[-1].rstrip(']') for w in waived)):
+        n = sum(1 for w in waived if w.endswith('[%s]' % code))
+        assumptions.append('%s: %s; %d such checks waived, not counted as obligations' % (code, WAIVE_TEXT.get(code, 'see DESIGN.md'), n))
     unproved = sorted(x for x in replaced if x not in all_enforced(mods))
     for x in unproved:
         assumptions.append('contract of %s is used (replaced) but enforced by no unit: ASSUMED' % x)
